@@ -58,6 +58,10 @@ class Project:
             creads.append(creads[0])          # duplicate report
         msvc = rnd.random() < 0.2
         eff = {"kind": "write", "creads": creads, "reads": spell_reads(rnd, creads)}
+        # what the command prints besides its include notes, and where the notes stand
+        eff["output"] = rnd.choice(["", "", "c%d.c: warning: unused\n" % i, "first line\nsecond line\n",
+                                    "\n\nafter two empty lines\n", "no newline at the end"])
+        eff["notes_at"] = rnd.choice(["first", "first", "last", "last-nonl", "mid"])
         if rnd.random() < 0.25:
             # a private header that the command itself rewrites while it runs (the discovered
             # counterpart of a step modifying its own declared input)
@@ -119,11 +123,17 @@ def history(rnd, idx, tier):
     p = Project(rnd, idx)
     g = p.graph()
     ops = [manifest_op(g, style=p.style)]
+    def put(f):
+        # some sources and headers are symbolic links into another directory; edits go through
+        # the link (what counts is the file the name denotes, not the link itself)
+        if rnd.random() < 0.12 and f not in p.private:
+            return {"op": "symlink", "path": f, "target": "linked/" + f.replace("/", "_")}
+        return {"op": "write", "path": f}
     for f in sources(g):
-        ops.append({"op": "write", "path": f})
+        ops.append(put(f))
     # headers that may be reported but are not declared anywhere
     for h in p.headers + p.private:
-        ops.append({"op": "write", "path": h})
+        ops.append(put(h))
     ops.append(invoke([], j=rnd.randint(1, 3)))
     nsteps = rnd.randint(2, 6) if tier == "quick" else rnd.randint(3, 9)
     for _ in range(nsteps):
